@@ -54,30 +54,41 @@ def jInners : List InnerConst → List Json
   | x :: xs => jInner x :: jInners xs
 end
 
-def jOptNat (k : String) : Option Nat → List (String × Json)
-  | none => []
-  | some n => [(k, jInt n)]
+/-- an object from a list of optional fields: dataclass fields equal to their default are omitted -/
+def fields (l : List (String × Option Json)) : List (String × Json) :=
+  l.filterMap (fun kv => kv.2.map (fun v => (kv.1, v)))
+
+def jNat (n : Nat) : Json := jInt n
 
 def jStrs (xs : List PStr) : Json := .arr (xs.map jStr)
 
-def jArgs (a : Args) : List (String × Json) :=
-  (if a.posOnly.isEmpty then [] else [("positional_only", jStrs a.posOnly)]) ++
-  (if a.posOrKw.isEmpty then [] else [("positional_or_keyword", jStrs a.posOrKw)]) ++
-  (match a.varPos with | none => [] | some s => [("var_positional", jStr s)]) ++
-  (if a.kwOnly.isEmpty then [] else [("keyword_only", jStrs a.kwOnly)]) ++
-  (match a.varKw with | none => [] | some s => [("var_keyword", jStr s)])
+def nonEmpty {α} (xs : List α) (j : Json) : Option Json := if xs.isEmpty then none else some j
+
+def jArgs (a : Args) : Json :=
+  .obj (fields [("positional_only", nonEmpty a.posOnly (jStrs a.posOnly)),
+                ("positional_or_keyword", nonEmpty a.posOrKw (jStrs a.posOrKw)),
+                ("var_positional", a.varPos.map jStr),
+                ("keyword_only", nonEmpty a.kwOnly (jStrs a.kwOnly)),
+                ("var_keyword", a.varKw.map jStr)])
 
 def jFnType : FnType → String
   | .generator => "GENERATOR" | .coroutine => "COROUTINE" | .asyncGenerator => "ASYNC_GENERATOR"
 
 def jFunction (f : Function) : Json :=
-  .obj ((if f.args == {} then [] else [("args", .obj (jArgs f.args))]) ++
-    (match f.doc with | none => [] | some d => [("docstring", jStr d)]) ++
-    (match f.ftype with | none => [] | some t => [("type", .lit (jFnType t))]))
+  .obj (fields [("args", if f.args == {} then none else some (jArgs f.args)),
+                ("docstring", f.doc.map jStr),
+                ("type", f.ftype.map (fun t => .lit (jFnType t)))])
+
+def jInts (xs : List Int) : Json := .arr (xs.map jInt)
 
 def jAddLine (a : AdditionalLine) : Json :=
-  .obj ([("line", match a.line with | none => .null | some l => jInt l)] ++
-        (if a.offs.isEmpty then [] else [("additional_offsets", .arr (a.offs.map jInt))]))
+  .obj (fields [("line", some (match a.line with | none => .null | some l => jInt l)),
+                ("additional_offsets", nonEmpty a.offs (jInts a.offs))])
+
+/-- `arg == NoArg()`, the default of `Instruction.arg` -/
+def Arg.isDefault : Arg → Bool
+  | .noarg x => x == 0
+  | _ => false
 
 mutual
 def jConst : Const → Json
@@ -85,20 +96,20 @@ def jConst : Const → Json
   | .code d => jCodeData d
 def jArg : Arg → Json
   | .raw n => jInt n
-  | .jump t r => .obj ([("target", jInt t)] ++ (if r then [("relative", .bool true)] else []))
-  | .name s o => .obj ([("name", jStr s)] ++ jOptNat "_index_override" o)
-  | .varname s o => .obj ([("varname", jStr s)] ++ jOptNat "_index_override" o)
-  | .const c o => .obj ([("constant", jConst c)] ++ jOptNat "_index_override" o)
-  | .free s => .obj [("freevar", jStr s)]
-  | .cell s o => .obj ([("cellvar", jStr s)] ++ jOptNat "_index_override" o)
-  | .noarg a => .obj (if a == 0 then [] else [("_arg", jInt a)])
+  | .jump t r => .obj (fields [("target", some (jNat t)), ("relative", if r then some (.bool true) else none)])
+  | .name s o => .obj (fields [("name", some (jStr s)), ("_index_override", o.map jNat)])
+  | .varname s o => .obj (fields [("varname", some (jStr s)), ("_index_override", o.map jNat)])
+  | .const c o => .obj (fields [("constant", some (jConst c)), ("_index_override", o.map jNat)])
+  | .free s => .obj (fields [("freevar", some (jStr s))])
+  | .cell s o => .obj (fields [("cellvar", some (jStr s)), ("_index_override", o.map jNat)])
+  | .noarg a => .obj (fields [("_arg", if a == 0 then none else some (jInt a))])
 def jInstr : Instr → Json
   | .mk op a n l o =>
-    .obj ([("name", .opName op)] ++
-      (match a with | .noarg 0 => [] | _ => [("arg", jArg a)]) ++
-      jOptNat "_n_args_override" n ++
-      (match l with | none => [] | some l => [("line_number", jInt l)]) ++
-      (if o.isEmpty then [] else [("_line_offsets_override", .arr (o.map jInt))]))
+    .obj (fields [("name", some (.opName op)),
+                  ("arg", if a.isDefault then none else some (jArg a)),
+                  ("_n_args_override", n.map jNat),
+                  ("line_number", l.map jInt),
+                  ("_line_offsets_override", nonEmpty o (jInts o))])
 def jInstrs : List Instr → List Json
   | [] => []
   | i :: is => jInstr i :: jInstrs is
@@ -111,14 +122,14 @@ def jArgList : List Arg → List Json
 /-- `to_json_data` -/
 def jCodeData : CodeData → Json
   | .mk bl fname fl name ss tp fv fut nested al aa =>
-    .obj ([("blocks", .arr (jBlocks bl)), ("filename", jStr fname), ("first_line_number", jInt fl),
-           ("name", jStr name), ("stacksize", jInt ss)] ++
-      (match tp with | none => [] | some f => [("type", jFunction f)]) ++
-      (if fv.isEmpty then [] else [("freevars", jStrs fv)]) ++
-      (if fut then [("future_annotations", .bool true)] else []) ++
-      (if nested then [("_nested", .bool true)] else []) ++
-      (match al with | none => [] | some a => [("_additional_line", jAddLine a)]) ++
-      (if aa.isEmpty then [] else [("_additional_args", .arr (jArgList aa))]))
+    .obj (fields [("blocks", some (.arr (jBlocks bl))), ("filename", some (jStr fname)), ("first_line_number", some (jInt fl)),
+                  ("name", some (jStr name)), ("stacksize", some (jNat ss)),
+                  ("type", tp.map jFunction),
+                  ("freevars", nonEmpty fv (jStrs fv)),
+                  ("future_annotations", if fut then some (.bool true) else none),
+                  ("_nested", if nested then some (.bool true) else none),
+                  ("_additional_line", al.map jAddLine),
+                  ("_additional_args", nonEmpty aa (.arr (jArgList aa)))])
 end
 
 /-! ### from JSON -/
@@ -139,9 +150,10 @@ def strsFromJson : Json → R (List PStr)
   | .arr xs => xs.mapM strFromJson
   | _ => throw .unmodelled
 
+/-- an int field of a dataclass: only a JSON integer is an int (a larger one was written as {"int": …},
+    which `from_json_data` does not decode outside constants: not modelled) -/
 def intFromJson : Json → R Int
   | .int i => pure i
-  | .obj [("int", .decOf i)] => pure i
   | _ => throw .unmodelled
 
 def natFromJson (j : Json) : R Nat := do
@@ -207,13 +219,21 @@ def functionFromJson : Json → R Function
     pure ⟨a.getD {}, d, t⟩
   | _ => throw .raised
 
+def intsFromJson : Json → R (List Int)
+  | .arr xs => xs.mapM intFromJson
+  | _ => throw .unmodelled
+
+def boolFromJson : Json → R Bool
+  | .bool b => pure b
+  | _ => throw .unmodelled
+
 def addLineFromJson : Json → R AdditionalLine
   | .obj kvs => do
     let l ← match jget "line" kvs with
       | some .null => pure none
       | some j => some <$> intFromJson j
       | none => throw .raised          -- required field
-    let o ← optField "additional_offsets" kvs (fun j => match j with | .arr xs => xs.mapM intFromJson | _ => throw .unmodelled)
+    let o ← optField "additional_offsets" kvs intsFromJson
     pure ⟨l, o.getD []⟩
   | _ => throw .raised
 
@@ -233,14 +253,6 @@ theorem jget_lt {k : String} {kvs : List (String × Json)} {j : Json} (h : jget 
     · have := ih h; simp; omega
 
 def optNatField (k : String) (kvs : List (String × Json)) : R (Option Nat) := optField k kvs natFromJson
-
-def intsFromJson : Json → R (List Int)
-  | .arr xs => xs.mapM intFromJson
-  | _ => throw .unmodelled
-
-def boolFromJson : Json → R Bool
-  | .bool b => pure b
-  | _ => throw .unmodelled
 
 mutual
 /-- `arg_from_json` -/
